@@ -13,6 +13,9 @@ Emits, using stdlib types only (string, list, pairs):
   * wallet_keys_private_fields   the column names Wallet.keys(as_dict=True) removes unless include_private
   * wallet_as_dict_keys_calls    the self.keys(...) calls made by Wallet.as_dict
   * encrypted_bind_plain_conditions   the `if` test under which Encrypted*.process_bind_param stores plaintext
+  * wallet_public_master_paths / wallet_wif_paths / hdkey_public_master_paths
+                           every path through the method body that ends in a return: (tests with polarity, statements)
+  * export_signatures      (Class.method, argument list with defaults) of every public-view / export entry point
 Fail closed: any statement shape that is not recognised raises (the translation aborts, the check reports it)."""
 import ast, os
 from coqfmt import string_lit, list_lit
@@ -385,6 +388,54 @@ def bind_plain_conditions(tree):
     return out
 
 
+# ------------------------------------------------------------------ paths of a method (Wallet.public_master, Wallet.wif)
+def flat(node):
+    return ' '.join(ast.unparse(node).split())
+
+
+def has_return(stmts):
+    return any(isinstance(n, ast.Return) for st in stmts for n in ast.walk(st))
+
+
+def return_paths(cls, name):
+    """every path through the body of cls.name that ends in a return: ([(test, polarity) ...], [statement ...]).
+    An `if` that contains a return forks the path; every other statement is taken verbatim (one line).  A return
+    inside a loop / try / with is not understood -> raise."""
+    f = one(cls, name)
+    paths = []
+
+    def walk(stmts, guards, acc):
+        for i, st in enumerate(stmts):
+            if isinstance(st, ast.Return):
+                paths.append((guards, acc + [flat(st)]))
+                return
+            if isinstance(st, ast.If) and has_return([st]):
+                t = flat(st.test)
+                rest = stmts[i + 1:]
+                walk(list(st.body) + rest, guards + [(t, True)], acc)
+                walk(list(st.orelse) + rest, guards + [(t, False)], acc)
+                return
+            if has_return([st]):
+                raise Shape('%s.%s: return inside %s' % (cls.name, name, type(st).__name__))
+            acc = acc + [flat(st)]
+        paths.append((guards, acc + ['return None']))
+
+    walk(strip_doc(f.body), [], [])
+    return paths
+
+
+def paths_def(name, paths):
+    items = []
+    for guards, stmts in paths:
+        g = '[' + '; '.join('(%s, %s)' % (S(t), 'true' if b else 'false') for t, b in guards) + ']'
+        items.append('(%s,\n     [ %s ])' % (g, ';\n       '.join(S(x) for x in stmts)))
+    return deflist(name, '(list (string * bool) * list string)', items)
+
+
+def signature(cls, name):
+    return flat(one(cls, name).args)
+
+
 def generate(repo):
     src = {}
     for f in ('keys', 'wallets', 'db'):
@@ -425,6 +476,22 @@ def generate(repo):
                        [pair(S(a), S(b)) for a, b in dbkey_writes(src['wallets'], [c for c, _ in cols])]))
     out.append(deflist('encrypted_bind_plain_conditions', '(string * string)',
                        [pair(S(a), S(b)) for a, b in bind_plain_conditions(src['db'])]))
+    out.append(paths_def('wallet_public_master_paths', return_paths(wl, 'public_master')))
+    out.append(paths_def('wallet_wif_paths', return_paths(wl, 'wif')))
+    out.append(paths_def('hdkey_public_master_paths', return_paths(kc['HDKey'], 'public_master')))
+    out.append(paths_def('walletkey_key_paths', return_paths(wc['WalletKey'], 'key')))
+    out.append(paths_def('as_json_paths', return_paths(kc['Key'], 'as_json') + return_paths(kc['HDKey'], 'as_json')
+                         + return_paths(wl, 'as_json')))
+    sigs = []
+    for cname, cls, names in (('Key', kc['Key'], ('public', 'as_dict', 'as_json', 'wif', 'info')),
+                              ('HDKey', kc['HDKey'], ('public', 'as_dict', 'as_json', 'wif', 'wif_public', 'info',
+                                                      'public_master', 'public_master_multisig')),
+                              ('Address', kc['Address'], ('as_dict', 'as_json')),
+                              ('WalletKey', wc['WalletKey'], ('public', 'as_dict', 'key')),
+                              ('Wallet', wl, ('public_master', 'wif', 'as_dict', 'as_json', 'info', 'keys', 'account'))):
+        for n in names:
+            sigs.append(pair(S(cname + '.' + n), S(signature(cls, n))))
+    out.append(deflist('export_signatures', '(string * string)', sigs))
     return {'GenFields.v': '\n'.join(out)}
 
 
